@@ -20,6 +20,10 @@ pub struct C09 {}
 struct Obs<'a> {
     machines: &'a [Machine],
     signalling_calls: u64,
+    /// the signal target that may legitimately be pending between calls, derived by the monitor itself
+    /// from the previous call's log: only a lone signaller that signalled again when it received the
+    /// answer (second round) leaves a signal for the next call
+    carry: Option<Option<usize>>,
 }
 
 fn v(sig: &str, msg: String) -> Verdict {
@@ -36,12 +40,20 @@ impl<'a> Monitor for Obs<'a> {
         let mut recv_live = vec![0usize; n];
         let mut recv_ended = vec![0usize; n];
         let mut in_round = false;
+        // signals raised by a machine after it received its own Signal in this call (only the lone
+        // signaller's answer to the second round can do that last)
+        let mut signalled_after_own_delivery = vec![false; n];
+        let mut got_delivery = vec![false; n];
+        let mut last_delivery_to: Option<usize> = None;
         for s in rec.log {
             match s {
                 Step::SignalRound => in_round = true,
                 Step::Sampled { machine, next: Some(t) } if *t == STATE_SIGNAL => {
                     if in_round {
                         signals_in_round[*machine] += 1;
+                        if got_delivery[*machine] {
+                            signalled_after_own_delivery[*machine] = true;
+                        }
                     } else {
                         signals[*machine] += 1;
                     }
@@ -55,6 +67,8 @@ impl<'a> Monitor for Obs<'a> {
                     if !in_round {
                         return v("signal-outside-round", format!("Signal delivered to machine {machine} before the end of the call"));
                     }
+                    got_delivery[*machine] = true;
+                    last_delivery_to = Some(*machine);
                     if *from_state == STATE_END {
                         recv_ended[*machine] += 1;
                     } else {
@@ -64,8 +78,16 @@ impl<'a> Monitor for Obs<'a> {
                 _ => {}
             }
         }
-        // a target carried over from the previous call counts as signalled by its source
-        let carried = rec.before.signal_pending;
+        // a target carried over from the previous call counts as signalled by its source; what may be
+        // carried is derived from the previous call's log, not read from the implementation
+        if rec.before.signal_pending != self.carry {
+            return v(
+                "signal-pending-between-calls",
+                format!("before this call the framework holds the pending signal target {:?}; by the rules it is {:?}", rec.before.signal_pending, self.carry),
+            );
+        }
+        let carried = self.carry;
+        self.carry = None;
         let mut sources: BTreeSet<usize> = (0..n).filter(|m| signals[*m] > 0).collect();
         let mut carried_all = false;
         match carried {
@@ -87,6 +109,9 @@ impl<'a> Monitor for Obs<'a> {
         if sources.is_empty() && !carried_all {
             if in_round {
                 return v("signal-without-signaller", "a signal round ran although no machine signalled and nothing was pending".into());
+            }
+            if rec.after.signal_pending.is_some() {
+                return v("signal-pending-between-calls", format!("nobody signalled in this call, yet the framework holds the pending target {:?} after it", rec.after.signal_pending));
             }
             return Ok(());
         }
@@ -139,6 +164,21 @@ impl<'a> Monitor for Obs<'a> {
                     );
                 }
             }
+        }
+        // what may be left pending for the next call
+        if sources.len() == 1 && !carried_all {
+            let x = *sources.iter().next().unwrap();
+            let answered = responders.iter().any(|m| *m != x);
+            if answered && last_delivery_to == Some(x) && signalled_after_own_delivery[x] {
+                self.carry = Some(Some(x));
+                out.bump("calls_leaving_a_signal_for_the_next_call");
+            }
+        }
+        if rec.after.signal_pending != self.carry {
+            return v(
+                "signal-pending-between-calls",
+                format!("after this call the framework holds the pending signal target {:?}; by the rules it is {:?}", rec.after.signal_pending, self.carry),
+            );
         }
         if recv_ended.iter().any(|c| *c > 0) {
             out.bump("signalling_calls_with_ended_machines");
@@ -246,6 +286,7 @@ impl Prop for C09 {
         let mut mon = Obs {
             machines: &machines,
             signalling_calls: 0,
+            carry: None,
         };
         out.evaluations += 1;
         let sc = Scenario {
